@@ -95,7 +95,7 @@ CLOSE_LOOP = ('__CPROVER_assigns(i, g_i)\n'
               '__CPROVER_loop_invariant(i == g_i && i <= *marker_size - 2 && *marker_size >= 2 && *marker_size <= g_n - OFF(g_p0) && ITER_UNCHANGED_LOOP(in) && PTRS_OK(in)'
               ' && ((g_k >= 1 && g_k <= i) ==> g_p0[g_k] == MARKC) && __CPROVER_same_object(g_p0, CUR(in)) && OFF(g_p0) == OFF(CUR(in)))')
 
-GH = 'g_turn, g_pos, g_done, g_iter, g_last, g_called[0], g_ok[0], g_len[0], g_ncalls[0], g_called[1], g_ok[1], g_len[1], g_ncalls[1], vf_exc, vf_exc_counter, g_exc_obj, g_exc_type'
+GH = 'g_turn, g_pos, g_done, g_iter, g_last, g_called[0], g_ok[0], g_len[0], g_ncalls[0], g_ae[0], g_re[0], g_lp[0], g_called[1], g_ok[1], g_len[1], g_ncalls[1], g_ae[1], g_re[1], g_lp[1], vf_exc, vf_exc_counter, g_exc_obj, g_exc_type'
 
 
 def until_loop(extra=''):
@@ -204,7 +204,9 @@ def jobs(tier):
                 E('(!vf_exc.pending && !RET) ==> (g_st == 11)', 'stub'))
             if m == 0:
                 content_stub.add(E('(!vf_exc.pending && !RET) ==> ITER_UNCHANGED(in)', 'stub'))
-            j = Job(rname('rs', a, m, tr), grp, rname('rs', a, m, tr), con, ('C16', 'C02', 'C03'),
+            for c in c11_leaf(traits_of(NAME, {'rs': 'RS'}, decls=TU_EXTRA, includes=('tao/pegtl/contrib/raw_string.hpp',))['rs']):
+                con.add(c)
+            j = Job(rname('rs', a, m, tr), grp, rname('rs', a, m, tr), con, ('C16', 'C02', 'C03', 'C11'),
                     stubs=[(r'^bool tao::pegtl::internal::raw_string_open<.*>::match<', open_stub), (r'^bool tao::pegtl::internal::raw_string_until<.*>::match<', (lambda fi, cs=content_stub: cs if fi.get('may_throw') else Contract(*(cs.clauses + [E('vf_exc.pending == 0', 'stub')]))))] + g_pos.pos_stubs(),   # the lowering found that this instantiation cannot throw: then neither may its stub
                     prelude=comb_prelude(tr) + 'int g_st; size_t g_ms, g_after_open, g_close;\n' + g_pos.PRE_STUB,
                     harness=comb_harness(it, tr, 'w_ret = $ENTRY(&in)').replace('vf_exc.pending = 0;', 'vf_exc.pending = 0; g_st = 0;'),
